@@ -11,7 +11,7 @@ RULE = (
     "every history of 1..3 runs of a two-member group on three different files x 3 run methods, a probe csvpath assigns from "
     "$g.variables.v, .v.key and $h.headers.name and the values must be those the most recent run left (later member wins a shared "
     "name); (replay) a results reference used as a file name replays exactly the referenced member's data.csv of the most recent "
-    "run; non-trivial = a stage actually narrowed its input / the history has >=2 runs; state = (stage, input lines) / (history)"
+    "run, also when the replayed file feeds a chain with source-mode preceding; non-trivial = a stage actually narrowed its input / the history has >=2 runs; state = (stage, input lines) / (history)"
 )
 BOUNDS = {
     "quick": "chains of 2..3 over 6 filters (all suffixes) x 6 files x 2 methods; reference histories of length 1..3 over 3 files x 3 methods; replay after 1..2 runs",
@@ -54,6 +54,7 @@ RFILES = [
     [["c0", "c1"], ["q", "5"]],
 ]
 RMETHODS = ["collect_paths", "fast_forward_paths", "collect_by_line"]
+RFILTERS = [("*", "yes()"), ("*", '#1 == "7"'), ("*", 'not(#1 == "1")'), ("1*", "yes()")]
 
 
 def cases(tier, seed):
@@ -73,6 +74,10 @@ def cases(tier, seed):
     for n in (1, 2):
         for h in itertools.product(range(len(RFILES)), repeat=n):
             yield {"kind": "replay", "hist": list(h)}
+            # the replayed file feeding a chain with source-mode preceding (two mechanisms at once)
+            for fa, fb in itertools.product(range(len(RFILTERS)), repeat=2):
+                for m in ("collect_paths", "next_paths"):
+                    yield {"kind": "replay", "hist": list(h), "chain": [fa, fb], "method": m}
 
 
 def sample(case):
@@ -229,6 +234,34 @@ def run_case(case):
     want = [r for r in RFILES[hist[-1]] if r[0] == "k"]
     if not want:
         return {"viol": viol, "states": [], "transitions": 0, "nontrivial": False, "outcome": "na", "fingerprint": "na", "extra": {"not_asserted_no_data": 1}}
+    if case.get("chain"):
+        fa, fb = case["chain"]
+        m0 = f"~ id: c0 ~ $[{RFILTERS[fa][0]}][{RFILTERS[fa][1]}]"
+        m1 = f"~ id: c1 source-mode: preceding ~ $[{RFILTERS[fb][0]}][{RFILTERS[fb][1]}]"
+        cp.paths_manager.add_named_paths(name="QC", paths=[m0, m1])
+        cstr += f" chain={[RFILTERS[fa], RFILTERS[fb]]} method={case['method']}"
+        src = sandbox.write_csv(want)
+        e0 = _alone(f"${src}[{RFILTERS[fa][0]}][{RFILTERS[fa][1]}]")["lines"]
+        if not e0:
+            return {"viol": viol, "states": [], "transitions": 0, "nontrivial": False, "outcome": "na", "fingerprint": "na", "extra": {"not_asserted_empty_predecessor": 1}}
+        e1 = _alone(f"${sandbox.write_csv(e0)}[{RFILTERS[fb][0]}][{RFILTERS[fb][1]}]")["lines"]
+        lines, exc = groups.run_method(cp, case["method"], name="QC", fname="$R.results.:last.r1")
+        if exc is not None:
+            bad("replay chain run raised", f"{type(exc).__name__}: {str(exc)[:160]}", None, cstr)
+        else:
+            qd = groups.run_dirs("QC")
+            for k, exp in ((0, e0), (1, e1)):
+                dp = os.path.join(qd[-1], f"c{k}", "data.csv") if qd else None
+                got = refarchive.read_csv(dp) if dp and os.path.isfile(dp) else []
+                if got != exp:
+                    bad(f"replayed chain member {k}: data.csv != composition model", got, exp, cstr)
+            mp = os.path.join(qd[-1], "c1", "manifest.json") if qd else None
+            if mp and os.path.isfile(mp):
+                adf = refarchive.load_json(mp).get("actual_data_file")
+                wantp = os.path.join(qd[-1], "c0", "data.csv")
+                if adf is None or os.path.normpath(os.path.join(sandbox.root(), adf)) != os.path.normpath(wantp):
+                    bad("replayed chain member 1: manifest actual_data_file is not the predecessor's data.csv", adf, os.path.relpath(wantp, sandbox.root()), cstr)
+        return {"viol": viol, "states": [run.h64(("replaychain", tuple(hist), fa, fb))], "transitions": len(hist) + 2, "nontrivial": len(e1) < len(e0) or len(e0) < len(want), "outcome": run.h64((e0, e1)), "fingerprint": run.h64((cstr, [v["diverge"] for v in viol]))}
     lines, exc = groups.run_method(cp, "collect_paths", name="Q", fname="$R.results.:last.r1")
     if exc is not None:
         bad("replay run raised", f"{type(exc).__name__}: {str(exc)[:160]}", None, cstr)
